@@ -246,6 +246,18 @@ func calculateCPUBurstCfgMerged(oldCfg configuration.CPUBurstCfg, configMap *cor
 	return mergedCfg, nil
 }
 
+// mergeSystemStrategy overlays patch on base. TotalNetworkBandwidth is a struct-typed field that `omitempty` never
+// omits, so the JSON overlay would always overwrite the inherited bandwidth, even when the patch leaves it unset.
+func mergeSystemStrategy(base, patch *slov1alpha1.SystemStrategy) *slov1alpha1.SystemStrategy {
+	inheritedBandwidth := base.TotalNetworkBandwidth.DeepCopy()
+	mergedStrategyInterface, _ := util.MergeCfg(base, patch)
+	merged := mergedStrategyInterface.(*slov1alpha1.SystemStrategy)
+	if patch.TotalNetworkBandwidth.IsZero() {
+		merged.TotalNetworkBandwidth = inheritedBandwidth
+	}
+	return merged
+}
+
 func calculateSystemConfigMerged(oldCfg configuration.SystemCfg, configMap *corev1.ConfigMap) (configuration.SystemCfg, error) {
 	cfgStr, ok := configMap.Data[configuration.SystemConfigKey]
 	if !ok {
@@ -261,8 +273,7 @@ func calculateSystemConfigMerged(oldCfg configuration.SystemCfg, configMap *core
 	// merge ClusterStrategy
 	clusterMerged := DefaultSLOCfg().SystemCfgMerged.ClusterStrategy.DeepCopy()
 	if mergedCfg.ClusterStrategy != nil {
-		mergedStrategyInterface, _ := util.MergeCfg(clusterMerged, mergedCfg.ClusterStrategy)
-		clusterMerged = mergedStrategyInterface.(*slov1alpha1.SystemStrategy)
+		clusterMerged = mergeSystemStrategy(clusterMerged, mergedCfg.ClusterStrategy)
 	}
 	mergedCfg.ClusterStrategy = clusterMerged
 
@@ -270,8 +281,7 @@ func calculateSystemConfigMerged(oldCfg configuration.SystemCfg, configMap *core
 		// merge with clusterStrategy
 		clusterCfgCopy := mergedCfg.ClusterStrategy.DeepCopy()
 		if nodeStrategy.SystemStrategy != nil {
-			mergedStrategyInterface, _ := util.MergeCfg(clusterCfgCopy, nodeStrategy.SystemStrategy)
-			mergedCfg.NodeStrategies[index].SystemStrategy = mergedStrategyInterface.(*slov1alpha1.SystemStrategy)
+			mergedCfg.NodeStrategies[index].SystemStrategy = mergeSystemStrategy(clusterCfgCopy, nodeStrategy.SystemStrategy)
 		} else {
 			mergedCfg.NodeStrategies[index].SystemStrategy = clusterCfgCopy
 		}
